@@ -698,6 +698,9 @@ coap_ws_read(coap_session_t *session, uint8_t *data, size_t datalen) {
                    " (%zu > %zu)\n", bytes_size, datalen);
       coap_handle_event_lkd(session->context, COAP_EVENT_WS_PACKET_SIZE, session);
       session->ws->close_reason = 1009;
+      /* Frame is not going to be read in - do not leave it pending */
+      session->ws->all_hdr_in = 0;
+      session->ws->hdr_ofs = 0;
       coap_ws_close(session);
       return 0;
     }
